@@ -169,7 +169,7 @@ theorem validItem_kv (k v : Str) (hk : keyWF k = true) (hv : valWF v = true) :
   unfold validItem
   rw [this.1, this.2]
   simp only [Bool.and_eq_true, Bool.not_eq_true', List.isEmpty_eq_false_iff, List.all_eq_true, bne_iff_ne]
-  exact ⟨hne, by decide, hvne, fun c hc => (hvc c hc).2.2⟩
+  exact ⟨hne, ⟨by simp, hvne⟩, fun c hc => (hvc c hc).2.2⟩
 
 theorem letter_ne_eq {c : Char} (h : isLetter c = true) : c ≠ '=' := isLetter_ne h (by decide)
 theorem letter_ne_comma {c : Char} (h : isLetter c = true) : c ≠ ',' := isLetter_ne h (by decide)
@@ -216,18 +216,19 @@ theorem strip_kv (k v : Str) (hk : keyWF k = true) (hv : valWF v = true) :
 
 /-! ### the dictionary updates -/
 
-theorem hasKey_false {acc : Attrs} {k : Str} (h : hasKey acc k = false) : ∀ x ∈ acc, (x.1 == k) = false := by
+theorem hasKey_false {acc : Attrs} {k : Str} (h : hasKey acc k = false) : ∀ x ∈ acc, x.1 ≠ k := by
   unfold hasKey at h
   simpa using h
 
 theorem map_upd_notin (acc : Attrs) (k : Str) (g : Str × List Str → Str × List Str)
-    (h : ∀ x ∈ acc, (x.1 == k) = false) : acc.map (fun kv => if kv.1 == k then g kv else kv) = acc := by
+    (h : ∀ x ∈ acc, x.1 ≠ k) : acc.map (fun kv => if kv.1 = k then g kv else kv) = acc := by
   induction acc with
   | nil => rfl
   | cons a t ih =>
-    simp [h a List.mem_cons_self, ih (fun x hx => h x (List.mem_cons_of_mem _ hx))]
+    have := h a List.mem_cons_self
+    simp [this, ih (fun x hx => h x (List.mem_cons_of_mem _ hx))]
 
-theorem find_notin (acc : Attrs) (k : Str) (h : ∀ x ∈ acc, (x.1 == k) = false) :
+theorem find_notin (acc : Attrs) (k : Str) (h : ∀ x ∈ acc, x.1 ≠ k) :
     acc.find? (·.1 == k) = none := by
   simp only [List.find?_eq_none]
   intro x hx
@@ -249,7 +250,8 @@ theorem setAttr_val_more (acc : Attrs) (k v : Str) (l : List Str) (h : hasKey ac
   | nil => exact absurd rfl hl
   | cons a t =>
     simp only [setAttr, hf]
-    simp [map_upd_notin acc k _ (hasKey_false h)]
+    have := map_upd_notin acc k (fun kv => (k, kv.2 ++ [v])) (hasKey_false h)
+    simp [this]
 
 theorem parseItems_values (k : Str) (hk : keyWF k = true) (vs : List Str) (hvs : ∀ v ∈ vs, valWF v = true)
     (rest : List Str) (acc : Attrs) (hacc : hasKey acc k = false) (l : List Str) (hl : l ≠ []) :
@@ -286,7 +288,7 @@ theorem parseItems_format (as : Attrs) (acc : Attrs)
       intro kv' hkv'
       apply hasKey_append_single _ _ _ _ (hdis kv' (List.mem_cons_of_mem _ hkv'))
       have := hasKey_false hnd.1 kv' hkv'
-      simpa [beq_eq_false_iff_ne, eq_comm] using this
+      exact beq_eq_false_iff_ne.mpr (fun e => this e.symm)
     have ih' := ih (acc ++ [(k, vs)]) (fun x hx => hwf x (List.mem_cons_of_mem _ hx)) hnd.2 hr
     cases vs with
     | nil =>
@@ -356,6 +358,434 @@ theorem map_strip_spaced (items : List Str) (h : ∀ x ∈ items, strip x = x) :
     calc r.map (strip ∘ fun s => ' ' :: s) = r.map id := List.map_congr_left this
       _ = r := by simp
 
+/-! ### save decisions -/
+
+theorem outputTagsFrom_entries (f : Flags) (all es : List Entry) (adj : Nat) (done : List Str) :
+    (outputTagsFrom f all es adj done).map (·.2) = (es.filter fun e => !shouldSkip f e).map (written f) := by
+  induction es generalizing adj done with
+  | nil => simp [outputTagsFrom]
+  | cons e r ih =>
+    unfold outputTagsFrom
+    by_cases hs : shouldSkip f e = true
+    · simp [hs, ih]
+    · simp only [hs, Bool.false_eq_true, ↓reduceIte]
+      have hs' : shouldSkip f e = false := by simpa using hs
+      split <;> simp [hs', ih]
+
+theorem outputTagsFrom_merged (f : Flags) (hm : f.saveMerged = true) (hb : f.saveBase = true) (hl : f.saveLib = true)
+    (all es : List Entry) (done : List Str) :
+    outputTagsFrom f all es 0 done = es.map fun e => (level e.name, written f e) := by
+  induction es generalizing done with
+  | nil => simp [outputTagsFrom]
+  | cons e r ih =>
+    have hs : shouldSkip f e = false := by simp [shouldSkip, hb, hl]
+    unfold outputTagsFrom
+    simp only [hs, Bool.false_eq_true, ↓reduceIte, ite_self, hm, Bool.not_true, Bool.and_false, Bool.false_and]
+    by_cases hz : (level e.name == 0) = true
+    · have : level e.name = 0 := by simpa using hz
+      simp [hz, ih, this]
+    · simp only [hz, Bool.false_eq_true, ↓reduceIte]
+      cases parentName e.name with
+      | none => simp [ih]
+      | some p =>
+        dsimp only
+        cases all.find? (fun x => x.name == p) <;> simp [ih]
+
+theorem hasKey_filter_ne (as : Attrs) (k : Str) : hasKey (as.filter fun kv => !(kv.1 == k)) k = false := by
+  unfold hasKey
+  simp
+
+theorem unescape_cons (c : Char) (t : Str) (hc : c ≠ '\\') : unescapeNl (c :: t) = c :: unescapeNl t := by
+  cases t with
+  | nil => simp [unescapeNl]
+  | cons d t' => simp [unescapeNl, hc]
+
+/-! ### nowiki tags: `cleanLine` on written lines -/
+
+theorem prefix_of_append_sep (p s r : Str) (z : Char) (hz : z ∉ p) (h : p.isPrefixOf (s ++ z :: r) = true) :
+    p.isPrefixOf s = true := by
+  induction p generalizing s with
+  | nil => simp
+  | cons a p' ih =>
+    have hz' : z ∉ p' := fun hm => hz (List.mem_cons_of_mem _ hm)
+    have haz : a ≠ z := fun e => hz (e ▸ List.mem_cons_self)
+    cases s with
+    | nil => simp [haz] at h
+    | cons b s' =>
+      simp only [List.cons_append, List.isPrefixOf_cons_cons, Bool.and_eq_true] at h ⊢
+      exact ⟨h.1, ih s' hz' h.2⟩
+
+theorem tagOpen_prefix_ne (c : Char) (cs : Str) (hc : c ≠ '<') : tagOpen.isPrefixOf (c :: cs) = false := by
+  have : ('<' == c) = false := by simpa using Ne.symm hc
+  simp [tagOpen, List.isPrefixOf_cons_cons, this]
+
+theorem tagClose_prefix_ne (c : Char) (cs : Str) (hc : c ≠ '<') : tagClose.isPrefixOf (c :: cs) = false := by
+  have : ('<' == c) = false := by simpa using Ne.symm hc
+  simp [tagClose, List.isPrefixOf_cons_cons, this]
+
+theorem removeTags_noLt (x r : Str) (hx : ∀ c ∈ x, c ≠ '<') : removeTags 0 (x ++ r) = x ++ removeTags 0 r := by
+  induction x with
+  | nil => rfl
+  | cons c cs ih =>
+    have hc := hx c List.mem_cons_self
+    simp only [List.cons_append, removeTags, tagOpen_prefix_ne c _ hc, tagClose_prefix_ne c _ hc,
+      Bool.false_eq_true, ↓reduceIte, ih (fun y hy => hx y (List.mem_cons_of_mem _ hy))]
+
+theorem removeTags_open (r : Str) : removeTags 0 (tagOpen ++ r) = removeTags 0 r := by
+  simp [tagOpen, removeTags]
+
+theorem removeTags_close : removeTags 0 tagClose = [] := by
+  simp [tagClose, tagOpen, removeTags]
+
+theorem noTag_cons {c : Char} {d : Str} (h : noTag (c :: d) = true) :
+    tagOpen.isPrefixOf (c :: d) = false ∧ tagClose.isPrefixOf (c :: d) = false ∧ noTag d = true := by
+  unfold noTag at h ⊢
+  simp only [hasSub, Bool.and_eq_true, Bool.not_eq_true', Bool.or_eq_false_iff] at h ⊢
+  exact ⟨h.1.1, h.2.1, h.1.2, h.2.2⟩
+
+theorem removeTags_noTag (d r : Str) (z : Char) (hd : noTag d = true) (hz1 : z ∉ tagOpen) (hz2 : z ∉ tagClose) :
+    removeTags 0 (d ++ z :: r) = d ++ removeTags 0 (z :: r) := by
+  induction d with
+  | nil => rfl
+  | cons c cs ih =>
+    obtain ⟨h1, h2, h3⟩ := noTag_cons hd
+    have e1 : tagOpen.isPrefixOf (c :: (cs ++ z :: r)) = false := by
+      cases h : tagOpen.isPrefixOf (c :: (cs ++ z :: r)) with
+      | false => rfl
+      | true =>
+        have := prefix_of_append_sep tagOpen (c :: cs) r z hz1 (by simpa using h)
+        rw [h1] at this; exact absurd this (by simp)
+    have e2 : tagClose.isPrefixOf (c :: (cs ++ z :: r)) = false := by
+      cases h : tagClose.isPrefixOf (c :: (cs ++ z :: r)) with
+      | false => rfl
+      | true =>
+        have := prefix_of_append_sep tagClose (c :: cs) r z hz2 (by simpa using h)
+        rw [h2] at this; exact absurd this (by simp)
+    simp only [List.cons_append, removeTags, e1, e2, Bool.false_eq_true, ↓reduceIte, ih h3]
+
+/-- an `extra` text that comes back unchanged when the closing tag behind it is removed -/
+def Clean (extra : Str) : Prop := removeTags 0 (extra ++ tagClose) = extra
+
+theorem clean_noLt (x : Str) (hx : ∀ c ∈ x, c ≠ '<') : Clean x := by
+  unfold Clean
+  rw [removeTags_noLt x _ hx, removeTags_close]; simp
+
+theorem clean_desc (x d : Str) (hx : ∀ c ∈ x, c ≠ '<') (hd : noTag d = true) : Clean (x ++ d ++ [']']) := by
+  unfold Clean
+  have : x ++ d ++ [']'] ++ tagClose = x ++ (d ++ ']' :: tagClose) := by simp
+  rw [this, removeTags_noLt x _ hx, removeTags_noTag d tagClose ']' hd (by decide) (by decide)]
+  have : removeTags 0 (']' :: tagClose) = [']'] := by
+    have := removeTags_noLt [']'] tagClose (by simp)
+    simpa [removeTags_close] using this
+  rw [this]; simp
+
+theorem findSub_noLt_open (x r : Str) (hx : ∀ c ∈ x, c ≠ '<') :
+    findSub tagOpen (x ++ r) = (findSub tagOpen r).map (· + x.length) := by
+  induction x with
+  | nil => simp
+  | cons c cs ih =>
+    have hc := hx c List.mem_cons_self
+    simp only [List.cons_append, findSub, tagOpen_prefix_ne c _ hc, Bool.false_eq_true, ↓reduceIte,
+      ih (fun y hy => hx y (List.mem_cons_of_mem _ hy)), Option.map_map, List.length_cons]
+    congr 1
+
+theorem findSub_noLt_close (x r : Str) (hx : ∀ c ∈ x, c ≠ '<') :
+    findSub tagClose (x ++ r) = (findSub tagClose r).map (· + x.length) := by
+  induction x with
+  | nil => simp
+  | cons c cs ih =>
+    have hc := hx c List.mem_cons_self
+    simp only [List.cons_append, findSub, tagClose_prefix_ne c _ hc, Bool.false_eq_true, ↓reduceIte,
+      ih (fun y hy => hx y (List.mem_cons_of_mem _ hy)), Option.map_map, List.length_cons]
+    congr 1
+
+theorem findSub_self_suffix (p a : Str) : (findSub p (a ++ p)).isSome = true := by
+  induction a with
+  | nil =>
+    cases p with
+    | nil => simp [findSub]
+    | cons c cs => simp [findSub]
+  | cons x a' ih =>
+    simp only [List.cons_append, findSub]
+    split
+    · rfl
+    · simpa using ih
+
+theorem nowikiErr_noLt (x : Str) (hx : ∀ c ∈ x, c ≠ '<') : nowikiErr x = false := by
+  have h1 := findSub_noLt_open x [] hx
+  have h2 := findSub_noLt_close x [] hx
+  simp only [List.append_nil] at h1 h2
+  unfold nowikiErr
+  rw [h1, h2]
+  simp [findSub, tagOpen, tagClose]
+
+theorem nowikiErr_written (cur m : Str) (hx : ∀ c ∈ cur, c ≠ '<') :
+    nowikiErr (cur ++ ' ' :: tagOpen ++ m ++ tagClose) = false := by
+  have e : cur ++ ' ' :: tagOpen ++ m ++ tagClose = (cur ++ [' ']) ++ (tagOpen ++ (m ++ tagClose)) := by simp
+  have hx' : ∀ c ∈ cur ++ [' '], c ≠ '<' := by
+    intro c hc
+    simp only [List.mem_append, List.mem_singleton] at hc
+    rcases hc with hc | rfl
+    · exact hx c hc
+    · decide
+  have h1 : findSub tagOpen (tagOpen ++ (m ++ tagClose)) = some 0 := by simp [findSub, tagOpen]
+  obtain ⟨k, hk⟩ := Option.isSome_iff_exists.mp (findSub_self_suffix tagClose (['n', 'o', 'w', 'i', 'k', 'i', '>'] ++ m))
+  have h2 : findSub tagClose (tagOpen ++ (m ++ tagClose)) = some (k + 1) := by
+    have : tagOpen ++ (m ++ tagClose) = '<' :: (['n', 'o', 'w', 'i', 'k', 'i', '>'] ++ m ++ tagClose) := by
+      simp [tagOpen]
+    rw [this]
+    simp only [findSub]
+    rw [hk]
+    simp [tagClose]
+  unfold nowikiErr
+  rw [e, findSub_noLt_open _ _ hx', findSub_noLt_close _ _ hx', h1, h2]
+  simp only [Option.map_some]
+  simp only [Nat.zero_add]
+  show decide (k + 1 + (cur ++ [' ']).length ≤ (cur ++ [' ']).length) = false
+  simp
+
+theorem cleanLine_plain (cur : Str) (hne : cur ≠ []) (hx : ∀ c ∈ cur, c ≠ '<') (ht : trimmed cur = true) :
+    cleanLine cur = .ok (some cur) := by
+  unfold cleanLine
+  simp only [strip_trimmed ht, nowikiErr_noLt cur hx, Bool.false_eq_true, ↓reduceIte]
+  have := removeTags_noLt cur [] hx
+  simp only [List.append_nil] at this
+  rw [this]
+  simp [removeTags, hne]
+
+theorem cleanLine_written (cur extra : Str) (hx : ∀ c ∈ cur, c ≠ '<')
+    (hh : ∃ c t, cur = c :: t ∧ isPySpace c = false) (hc : Clean extra) :
+    cleanLine (cur ++ ' ' :: tagOpen ++ extra ++ tagClose) = .ok (some (cur ++ ' ' :: extra)) := by
+  obtain ⟨c, t, rfl, hsp⟩ := hh
+  have hstrip : strip (c :: t ++ ' ' :: tagOpen ++ extra ++ tagClose) = c :: t ++ ' ' :: tagOpen ++ extra ++ tagClose := by
+    unfold strip
+    rw [lstrip_of_head _ (by intro d hd; simp at hd; subst hd; exact hsp)]
+    have : c :: t ++ ' ' :: tagOpen ++ extra ++ tagClose = (c :: t ++ ' ' :: tagOpen ++ extra) ++ tagClose := by simp
+    rw [this]
+    apply rstrip_append
+    · exact rstrip_of_last tagClose '>' (by simp [tagClose]) (by decide)
+    · simp [tagClose]
+  unfold cleanLine
+  rw [hstrip]
+  simp only [nowikiErr_written (c :: t) extra hx, Bool.false_eq_true, ↓reduceIte]
+  have e : c :: t ++ ' ' :: tagOpen ++ extra ++ tagClose = (c :: t ++ [' ']) ++ (tagOpen ++ (extra ++ tagClose)) := by simp
+  have hx' : ∀ d ∈ c :: t ++ [' '], d ≠ '<' := by
+    intro d hd
+    simp only [List.mem_append, List.mem_singleton] at hd
+    rcases hd with hd | rfl
+    · exact hx d hd
+    · decide
+  rw [e, removeTags_noLt _ _ hx', removeTags_open, hc]
+  simp
+
+/-! ### the name part of a row -/
+
+theorem removeSub_none (p s : Str) (h : hasSub p s = false) : removeSub p 0 s = s := by
+  induction s with
+  | nil => rfl
+  | cons c cs ih =>
+    simp only [hasSub, Bool.or_eq_false_iff] at h
+    simp [removeSub, h.1, ih h.2]
+
+theorem dropWhile_space_append (u t : Str) (hne : u ≠ [])
+    (hlast : ∀ c, u.getLast? = some c → isPySpace c = false) :
+    ∃ c rest, (u ++ t).dropWhile isPySpace = c :: rest ∧ c ∈ u ∧ isPySpace c = false := by
+  induction u with
+  | nil => exact absurd rfl hne
+  | cons a u' ih =>
+    cases u' with
+    | nil =>
+      have ha := hlast a (by simp)
+      exact ⟨a, t, by simp [List.dropWhile, ha], List.mem_cons_self, ha⟩
+    | cons b u'' =>
+      by_cases ha : isPySpace a = true
+      · obtain ⟨c, rest, h1, h2, h3⟩ := ih (by simp) (by
+          intro c hc; apply hlast c; simpa [List.getLast?_cons_cons] using hc)
+        exact ⟨c, rest, by simpa [List.dropWhile, ha] using h1, List.mem_cons_of_mem _ h2, h3⟩
+      · have ha' : isPySpace a = false := by simpa using ha
+        exact ⟨a, b :: u'' ++ t, by simp [List.dropWhile, ha'], List.mem_cons_self, ha'⟩
+
+theorem tailMatch_none (u t : Str) (hne : u ≠ []) (hchars : ∀ c ∈ u, c ≠ '\'' ∧ isOpen c = false)
+    (hlast : ∀ c, u.getLast? = some c → isPySpace c = false) : tailMatch (u ++ t) = none := by
+  obtain ⟨c, rest, hd, hc, _⟩ := dropWhile_space_append u t hne hlast
+  have hq : quote3.isPrefixOf (u ++ t) = false := by
+    cases u with
+    | nil => exact absurd rfl hne
+    | cons a u' =>
+      have : ('\'' == a) = false := by simpa using Ne.symm (hchars a List.mem_cons_self).1
+      simp [quote3, List.isPrefixOf_cons_cons, this]
+  unfold tailMatch
+  simp only [hq, Bool.false_eq_true, ↓reduceIte, List.drop_zero, hd, (hchars c hc).2]
+
+theorem tailMatch_nil : tailMatch [] = some 0 := by decide
+
+theorem scanName_append (u t : Str) (k : Nat) (ht : tailMatch t = some k)
+    (hu : ∀ u1 u2, u = u1 ++ u2 → u2 ≠ [] → tailMatch (u2 ++ t) = none) :
+    scanName (u ++ t) = (u, u.length + k) := by
+  induction u with
+  | nil =>
+    cases t with
+    | nil =>
+      rw [tailMatch_nil] at ht
+      simp at ht; subst ht; rfl
+    | cons c cs => simp [scanName, ht]
+  | cons c u' ih =>
+    have h0 := hu [] (c :: u') rfl (by simp)
+    have ih' := ih (fun u1 u2 e hne => hu (c :: u1) u2 (by simp [e]) hne)
+    simp only [List.cons_append] at h0 ⊢
+    simp only [scanName, h0, ih', List.length_cons]
+    congr 1; omega
+
+theorem scanName_name (u t : Str) (k : Nat) (ht : tailMatch t = some k) (hne : u ≠ [])
+    (hchars : ∀ c ∈ u, c ≠ '\'' ∧ isOpen c = false) (hlast : ∀ c, u.getLast? = some c → isPySpace c = false) :
+    scanName (u ++ t) = (u, u.length + k) := by
+  apply scanName_append u t k ht
+  intro u1 u2 e h2
+  apply tailMatch_none u2 t h2
+  · intro c hc; exact hchars c (by rw [e]; exact List.mem_append_right _ hc)
+  · intro c hc
+    apply hlast c
+    rw [e, List.getLast?_append, hc]; rfl
+
+theorem stars_take_drop (n : Nat) (rest : Str) (h : ∀ c, rest.head? = some c → c ≠ '*') :
+    (stars n ++ rest).takeWhile (· == '*') = stars n ∧ (stars n ++ rest).dropWhile (· == '*') = rest := by
+  apply takeWhile_append_stop
+  · intro x hx; simp [stars] at hx; simp [hx.2]
+  · intro x hx; simpa using h x hx
+
+theorem searchName_star (l : Nat) (u t : Str) (k : Nat) (hu0 : ∀ c, (u ++ t).head? = some c → c ≠ '*')
+    (hs : scanName (u ++ t) = (u, u.length + k)) :
+    searchName (stars (l + 1) ++ (u ++ t)) 0 = some (u, l + 1 + u.length + k) := by
+  have e : stars (l + 1) ++ (u ++ t) = '*' :: (stars l ++ (u ++ t)) := by simp [stars, List.replicate_succ]
+  obtain ⟨h1, h2⟩ := stars_take_drop l (u ++ t) hu0
+  rw [e]
+  have hl : (stars l).length = l := by simp [stars]
+  simp only [searchName, beq_self_eq_true, ↓reduceIte, h1, h2, hs, hl]
+  congr 2; omega
+
+theorem searchName_root (u t : Str) (k : Nat) (hs : scanName (u ++ t) = (u, u.length + k)) :
+    searchName (quote3 ++ (u ++ t)) 0 = some (u, 3 + u.length + k) := by
+  simp only [quote3, List.cons_append, List.nil_append, searchName]
+  have : ('\'' == '*') = false := by decide
+  simp only [this, Bool.false_eq_true, ↓reduceIte]
+  simp [List.isPrefixOf_cons_cons, hs]
+  omega
+
+theorem getTagName_of_search (row name g : Str) (idx : Nat) (he : hasSub extendHere row = false)
+    (hz : hasSub zwEntity row = false) (hs : searchName row 0 = some (g, idx)) (hg : strip g = name)
+    (hn : name ≠ []) : getTagName row = some (name, idx) := by
+  unfold getTagName
+  simp [he, removeSub_none zwEntity row hz, hs, hg, hn]
+
+/-! ### the bracketed sections of a row -/
+
+theorem findChar_append_notin (c : Char) (x r : Str) (hx : ∀ a ∈ x, a ≠ c) :
+    findChar c (x ++ r) = (findChar c r).map (· + x.length) := by
+  induction x with
+  | nil => simp
+  | cons a t ih =>
+    have ha : (a == c) = false := by simpa using hx a List.mem_cons_self
+    simp only [List.cons_append, findChar, ha, Bool.false_eq_true, ↓reduceIte,
+      ih (fun y hy => hx y (List.mem_cons_of_mem _ hy)), Option.map_map, List.length_cons]
+    congr 1
+
+theorem findChar_none (c : Char) (x : Str) (hx : ∀ a ∈ x, a ≠ c) : findChar c x = none := by
+  have := findChar_append_notin c x [] hx
+  simpa [findChar] using this
+
+theorem count_zero (c : Char) (x : Str) (hx : ∀ a ∈ x, a ≠ c) : x.count c = 0 :=
+  List.count_eq_zero.mpr (fun hm => hx c hm rfl)
+
+theorem lineSection_absent (row : Str) (idx : Nat) (o c : Char) (ho : ∀ a ∈ row, a ≠ o)
+    (hc : ∀ a ∈ row, a ≠ c) : lineSection row idx o c = some ([], idx) := by
+  unfold lineSection
+  have h1 := findChar_none o (row.drop idx) (fun a ha => ho a (List.mem_of_mem_drop ha))
+  have h2 := findChar_none c (row.drop idx) (fun a ha => hc a (List.mem_of_mem_drop ha))
+  simp [count_zero o row ho, count_zero c row hc, h1, h2]
+
+theorem lineSection_found (W X inner Z : Str) (o c : Char) (hoc : o ≠ c)
+    (hW : ∀ a ∈ W, a ≠ o ∧ a ≠ c) (hX : ∀ a ∈ X, a ≠ o ∧ a ≠ c) (hI : ∀ a ∈ inner, a ≠ o ∧ a ≠ c)
+    (hZ : ∀ a ∈ Z, a ≠ o ∧ a ≠ c) (idx : Nat) (hidx : idx = W.length) :
+    lineSection (W ++ (X ++ o :: (inner ++ c :: Z))) idx o c = some (inner, X.length + 1 + inner.length + idx) := by
+  subst hidx
+  have c1 : (W ++ (X ++ o :: (inner ++ c :: Z))).count o = 1 := by
+    simp [List.count_append, List.count_cons, count_zero o W (fun a h => (hW a h).1),
+      count_zero o X (fun a h => (hX a h).1), count_zero o inner (fun a h => (hI a h).1),
+      count_zero o Z (fun a h => (hZ a h).1), Ne.symm hoc]
+  have c2 : (W ++ (X ++ o :: (inner ++ c :: Z))).count c = 1 := by
+    simp [List.count_append, List.count_cons, count_zero c W (fun a h => (hW a h).2),
+      count_zero c X (fun a h => (hX a h).2), count_zero c inner (fun a h => (hI a h).2),
+      count_zero c Z (fun a h => (hZ a h).2), hoc]
+  have f1 : findChar o (X ++ o :: (inner ++ c :: Z)) = some X.length := by
+    rw [findChar_append_notin o X _ (fun a h => (hX a h).1)]; simp [findChar]
+  have f2 : findChar c (X ++ o :: (inner ++ c :: Z)) = some (X.length + 1 + inner.length) := by
+    rw [findChar_append_notin c X _ (fun a h => (hX a h).2)]
+    have : (o == c) = false := by simpa using hoc
+    simp only [findChar, this, Bool.false_eq_true, ↓reduceIte]
+    rw [findChar_append_notin c inner _ (fun a h => (hI a h).2)]
+    simp [findChar]; omega
+  unfold lineSection
+  simp only [c1, c2, bne_self_eq_false, Bool.false_or, List.drop_left, f1, f2]
+  have hlt : ¬ (X.length + 1 + inner.length < X.length) := by omega
+  have e1 : (X ++ o :: (inner ++ c :: Z)).drop (X.length + 1) = inner ++ c :: Z := by
+    have : X ++ o :: (inner ++ c :: Z) = (X ++ [o]) ++ (inner ++ c :: Z) := by simp
+    rw [this]
+    have hl : X.length + 1 = (X ++ [o]).length := by simp
+    rw [hl, List.drop_left]
+  have e2 : X.length + 1 + inner.length - (X.length + 1) = inner.length := by omega
+  simp [hlt, e1, e2]
+
+theorem mem_joinWith {sep : Str} {items : List Str} {c : Char} (h : c ∈ joinWith sep items) :
+    c ∈ sep ∨ ∃ x ∈ items, c ∈ x := by
+  induction items with
+  | nil => simp [joinWith] at h
+  | cons x r ih =>
+    cases r with
+    | nil => exact Or.inr ⟨x, List.mem_cons_self, by simpa [joinWith] using h⟩
+    | cons y r' =>
+      simp only [joinWith, List.mem_append] at h
+      rcases h with (h | h) | h
+      · exact Or.inr ⟨x, List.mem_cons_self, h⟩
+      · exact Or.inl h
+      · rcases ih h with h | ⟨z, hz, hc⟩
+        · exact Or.inl h
+        · exact Or.inr ⟨z, List.mem_cons_of_mem _ hz, hc⟩
+
+theorem isLetter_not_delim {c : Char} (h : isLetter c = true) : lineDelim c = false := by
+  unfold lineDelim
+  simp only [Bool.or_eq_false_iff, beq_eq_false_iff_ne]
+  refine ⟨⟨⟨⟨?_, ?_⟩, ?_⟩, ?_⟩, ?_⟩ <;> exact isLetter_ne h (by decide)
+
+theorem formatAttr_chars (as : Attrs) (h : attrsWF as = true)
+    (hv : (as.all fun kv => kv.2.all fun v => v.all (!lineDelim ·)) = true) :
+    ∀ c ∈ formatAttr as, lineDelim c = false := by
+  intro c hc
+  obtain ⟨_, hwf⟩ := attrsWF_spec h
+  rcases mem_joinWith hc with hc | ⟨x, hx, hcx⟩
+  · simp only [List.mem_cons, List.not_mem_nil, or_false] at hc
+    rcases hc with rfl | rfl <;> decide
+  · obtain ⟨kv, hkv, hform⟩ := mem_formatItems hx
+    have hl := (keyWF_spec (hwf kv hkv).1).2
+    simp only [List.all_eq_true, Bool.not_eq_true'] at hv
+    rcases hform with ⟨_, rfl⟩ | ⟨v, hvm, rfl⟩
+    · exact isLetter_not_delim (hl c hcx)
+    · simp only [List.mem_append, List.mem_cons] at hcx
+      rcases hcx with hcx | rfl | hcx
+      · exact isLetter_not_delim (hl c hcx)
+      · decide
+      · exact hv kv hkv v hvm c hcx
+
+theorem formatAttr_ne_nil (as : Attrs) (h : attrsWF as = true) (hne : as ≠ []) : formatAttr as ≠ [] := by
+  obtain ⟨kv, r, rfl⟩ := List.exists_cons_of_ne_nil hne
+  have hitems : formatItems (kv :: r) ≠ [] := by
+    obtain ⟨k, vs⟩ := kv
+    cases vs <;> simp [formatItems]
+  obtain ⟨x, xs, hx⟩ := List.exists_cons_of_ne_nil hitems
+  have hxne : x ≠ [] := (item_props h (x := x) (by rw [hx]; exact List.mem_cons_self)).2.1
+  unfold formatAttr
+  rw [hx]
+  exact joinWith_ne_nil _ x xs hxne
+
 end HedVerif.SchemaIO
 
 namespace HedVerif.C05
@@ -393,5 +823,94 @@ theorem attr_multivalue_survives (as : Attrs) (h : attrsWF as = true) (k : Str) 
 
 example : attrsWF [(['a'], []), (['b'], [['c'], ['d', ' ', 'e']])] = true := by decide
 example : formatAttr [(['a'], []), (['b'], [['c'], ['d']])] = "a, b=c, b=d".toList := by decide
+
+/-! ### refusal and library handling of `process_schema` -/
+
+/-- **Refusal.**  A schema whose `library` header lists more than one library (the value contains `,`, as produced
+by loading several libraries into one schema) is refused by the decision step every writer shares, whatever the
+`withStandard` value, the `save_merged` flag and the content. -/
+theorem refuse (library withStandard : Str) (saveMerged : Bool) (all : List Entry) (h : ',' ∈ library) :
+    processFlags library withStandard saveMerged = .error .multiLibrary ∧
+    saveTags library withStandard saveMerged all = .error .multiLibrary := by
+  have hc : canSave library = false := by
+    unfold canSave
+    cases library with
+    | nil => simp at h
+    | cons a t => simp [List.contains_iff_mem, h]
+  simp [saveTags, processFlags, hc, Except.map]
+
+/-- nothing else is refused: the writers refuse exactly the multi-library headers -/
+theorem refuse_iff (library withStandard : Str) (saveMerged : Bool) :
+    (∃ f, processFlags library withStandard saveMerged = .ok f) ↔ ',' ∉ library := by
+  unfold processFlags canSave
+  by_cases h : ',' ∈ library
+  · have : library ≠ [] := by intro e; subst e; simp at h
+    simp [h, List.contains_iff_mem, this]
+  · simp only [h, not_false_eq_true, iff_true]
+    have : (library.isEmpty || !library.contains ',') = true := by simp [List.contains_iff_mem, h]
+    simp only [this, Bool.not_true, Bool.false_eq_true, ↓reduceIte]
+    split <;> exact ⟨_, rfl⟩
+
+/-- **Unmerged save of a partnered library.**  With a `withStandard` header and `save_merged = False` the tag
+section written is exactly the library's own entries (those carrying `inLibrary`), in order, each without its
+`inLibrary` attribute and otherwise unchanged; the same holds for every flat section. -/
+theorem strip_inlibrary (library withStandard : Str) (hl : ',' ∉ library) (hws : withStandard ≠ [])
+    (all : List Entry) :
+    ∃ f, processFlags library withStandard false = .ok f ∧
+      (outputTags f all).map (·.2) =
+        (all.filter hasLib).map (fun e => { e with attrs := e.attrs.filter fun kv => !(kv.1 == inLibrary) }) ∧
+      (∀ p ∈ outputTags f all, hasLib p.2 = false) ∧
+      outputSection f all =
+        (all.filter hasLib).map (fun e => { e with attrs := e.attrs.filter fun kv => !(kv.1 == inLibrary) }) := by
+  have hc : canSave library = true := by simp [canSave, List.contains_iff_mem, hl]
+  have hw : withStandard.isEmpty = false := by simpa using hws
+  refine ⟨{ saveLib := true, saveBase := false, saveMerged := false, stripInLib := true }, ?_, ?_, ?_, ?_⟩
+  · simp [processFlags, hc, hw]
+  · rw [outputTags, outputTagsFrom_entries]
+    simp [shouldSkip, written, writeAttrs]
+  · intro p hp
+    have hm : p.2 ∈ (outputTags _ all).map (·.2) := List.mem_map_of_mem hp
+    rw [outputTags, outputTagsFrom_entries] at hm
+    obtain ⟨e, _, he⟩ := List.mem_map.mp hm
+    rw [← he]
+    simp only [written, writeAttrs, Bool.true_and, hasLib]
+    exact hasKey_filter_ne e.attrs inLibrary
+  · simp [outputSection, shouldSkip, written, writeAttrs]
+
+/-- **Merged save** (and the save of a schema without partner): every entry is written, at the level given by
+its own name; a partnered merged save keeps `inLibrary`, so the reader can tell the two parts apart again. -/
+theorem merged_keeps_everything (library withStandard : Str) (hl : ',' ∉ library) (all : List Entry) :
+    ∃ f, processFlags library withStandard true = .ok f ∧
+      outputTags f all = all.map (fun e => (level e.name, written f e)) ∧
+      (withStandard ≠ [] → ∀ e, written f e = e) := by
+  have hc : canSave library = true := by simp [canSave, List.contains_iff_mem, hl]
+  by_cases hw : withStandard = []
+  · refine ⟨{ saveLib := true, saveBase := true, saveMerged := true, stripInLib := true }, ?_, ?_, ?_⟩
+    · simp [processFlags, hc, hw]
+    · exact outputTagsFrom_merged _ rfl rfl rfl all all []
+    · intro h; exact absurd hw h
+  · have hw' : withStandard.isEmpty = false := by simpa using hw
+    refine ⟨{ saveLib := true, saveBase := true, saveMerged := true, stripInLib := false }, ?_, ?_, ?_⟩
+    · simp [processFlags, hc, hw']
+    · exact outputTagsFrom_merged _ rfl rfl rfl all all []
+    · intro _ e
+      have : List.filter (fun _ : Str × List Str => true) e.attrs = e.attrs := List.filter_eq_self.mpr (by simp)
+      simp [written, writeAttrs, this]
+
+/-! ### newline escape of the TSV struct sheet -/
+
+/-- prologue / epilogue texts without a backslash survive the struct-sheet escaping -/
+theorem escape_roundtrip_partial (s : Str) (h : ∀ c ∈ s, c ≠ '\\') : unescapeNl (escapeNl s) = s := by
+  induction s with
+  | nil => rfl
+  | cons c cs ih =>
+    have ih' := ih (fun x hx => h x (List.mem_cons_of_mem _ hx))
+    by_cases hc : c = '\n'
+    · subst hc; simp [escapeNl, unescapeNl, ih']
+    · have hb := h c List.mem_cons_self
+      simp [escapeNl, hc, unescape_cons c _ hb, ih']
+
+/-- a literal backslash followed by `n` comes back as a newline (observed on the real TSV round trip of a prologue) -/
+theorem escape_counterexample : unescapeNl (escapeNl ['a', '\\', 'n', 'b']) = ['a', '\n', 'b'] := by decide
 
 end HedVerif.C05
